@@ -80,6 +80,18 @@ def thenIsDeleteOld (raw : List Char) : Bool := raw == "DELETE".toList
 /-- `expr.key_command` / `checks.py`: kind strings are upper-cased before they are compared -/
 def kindIs (raw : List Char) (k : String) : Bool := upper raw == k.toList
 
+/-- does `hay` contain `needle` as a contiguous substring? -/
+def containsB (needle : List Char) : List Char → Bool
+  | [] => needle.isEmpty
+  | c :: cs => needle.isPrefixOf (c :: cs) || containsB needle cs
+
+/-- `transforms.tag` on a statement sqlglot hands over as raw text (`ALTER TABLE … MODIFY COLUMN … SET TAG …`):
+    `"SET TAG" in cexp.upper()` -/
+def rawHasSetTag (raw : List Char) : Bool := containsB "SET TAG".toList (upper raw)
+
+/-- a case-sensitive search on the text as written (what the code must not do) -/
+def rawHasSetTagCaseSensitive (raw : List Char) : Bool := containsB "SET TAG".toList raw
+
 /-- `variables.py`: SET stores the variable under the *rendered* name (`eq.this.sql()`: quotes included),
     UNSET and `$name` look it up by the bare folded text -/
 def setKey (i : Ident) : List Char := if i.quoted then '"' :: i.raw ++ ['"'] else upper i.raw
